@@ -379,13 +379,14 @@ def c13(run):
 def c14(run):
     depth = 4 if run.thorough else 3
     harness = run.harness("writer_walk")
-    for machine, n in (("fixed", 3), ("grow", 3)) + ((("fixed", 4), ("grow", 4), ("fixed", 0)) if run.thorough else (("fixed", 0),)):
+    for machine, n in (("fixed", 3), ("grow", 3), ("file", 3)) + ((("fixed", 4), ("grow", 4), ("file", 4), ("fixed", 0)) if run.thorough else (("fixed", 0),)):
         g = vlib.generate("MC_StreamWriter", {"Machine": '"%s"' % machine, "N": n}, invariants=("PosInBounds",), properties=("FrameCondition",),
                           workers=8, tag="T")
         run.states += g["states"]
         run.transitions += g["n"]
         run.sample(g["records"][len(g["records"]) // 2])
-        res = vlib.run_isolated([harness, "--rel", g["file"], "--machine", machine, "--n", str(n), "--depth", str(depth),
+        res = vlib.run_isolated([harness, "--rel", g["file"], "--machine", machine, "--n", str(n), "--depth", str(depth if machine != "file" else min(depth, 3)),
+                                 "--file", os.path.join(vlib.shm_dir(), f"fw_{n}.bin"),
                                  "--random", "5000" if run.thorough else "1500", "--len", "40", "--seed", str(vlib.SEED)], max_crashes=60)
         run.traces += res["summary"].get("walks", 0)
         run.steps += res["summary"].get("steps", 0)
